@@ -4,6 +4,22 @@ import os
 from ..core import MachineryError
 
 
+def bag(ctx):
+    """mesh-container part: programs of container operations (BagMC) executed on real MeshContainers, every step judged by BagTrace"""
+    thorough = ctx.tier == "thorough"
+    r = ctx.tlc("BagMC", "BagMC3.cfg" if thorough else "BagMC.cfg", workers=1, timeout=1800, tag="bagprograms")
+    if r["rc"] != 0:
+        raise MachineryError("BagMC failed rc=%s\n%s" % (r["rc"], r["out"][-3000:]))
+    lines = [ln for ln in r["out"].splitlines() if "PROGRAM|" in ln]
+    path = os.path.join(ctx.work, "bagprograms.txt")
+    with open(path, "w") as f:
+        f.write("\n".join(lines) + "\n")
+    ctx.extra["bag_programs_exported"] = len(lines)
+    shards = ctx.drive("d16b", nshards=16, extra=["--opt", "programs=%s" % path + (";limit=12000" if thorough else "")], name="d16b")
+    ctx.drift_clauses |= {"CopyIsFresh"}          # aliasing bookkeeping, not stated by the property
+    ctx.validate("BagTrace", shards)
+
+
 def run(ctx):
     thorough = ctx.tier == "thorough"
     r = ctx.tlc("MeshOpsMC", "MeshOpsMC3.cfg" if thorough else "MeshOpsMC.cfg", workers=1, timeout=1800, tag="programs")
@@ -19,9 +35,11 @@ def run(ctx):
     shards += ctx.drive("d16g", nshards=4, name="d16g")
     ctx.validate("MeshOpsTrace", [s for s in shards if "d16g" not in s], heap="3g")
     ctx.validate("MeshGenTrace", [s for s in shards if "d16g" in s])
+    bag(ctx)
     ctx.require_clauses(["PositiveOrientation", "NoUnusedPoints", "NoDuplicatePoints", "CoversDomain", "FacesAtMostTwice", "CellShapesPreserved",
                          "VolumePreserved", "SameMesh", "FlipInverts", "ExpandVolume", "RevolveVolume", "CornersUnmoved",
-                         "MidpointsAreCentroids", "CellsOwnPoints", "GenOriented", "GenArea"])
+                         "MidpointsAreCentroids", "CellsOwnPoints", "GenOriented", "GenArea", "SharedPoints", "OldCellsKeepCoordinates",
+                         "AppendedEqualsArgument", "NoDuplicatePointsAfterMerge", "StackIsConcatenation", "PoppedIsListed"])
     ctx.rule = ("every program (seed generator + operations applicable to the current cell type) up to depth %d exported by MeshOpsMC; one "
                 "record per distinct program prefix = one judged step; plus fixed-point records for the non-lattice generators (Circle, "
                 "Triangle, arbitrary-order Lagrange, generic rotation angles)" % (3 if thorough else 2))
